@@ -80,11 +80,15 @@ class Peer:
     def read_error(self, exc=None):
         exc = exc or ConnectionResetError("reset by peer (injected)")
         (self.link.b_reader if self.kind == "tcp" else self.stdin).set_exception(exc)
+        if self.kind == "tcp":
+            # asyncio: once the transport reported connection_lost(exc), StreamWriter.drain() raises as well
+            self.link.b_writer.drain_exc = ConnectionResetError("Connection lost (injected)")
 
     def write_error(self, exc=None):
         exc = exc or BrokenPipeError("broken pipe (injected)")
         if self.kind == "tcp":
             self.link.b_writer.write_exc = exc
+            self.link.b_writer.drain_exc = exc
         else:
             self.stdout.write_exc = exc
 
